@@ -28,6 +28,10 @@ class PathInfo:
                     if sym is None:
                         sym = SymExec(S, path)
                     e2 = sym.switch_vals.get(i)
+                    if isinstance(e2, tuple) and len(e2) == 2 and e2[0] == "discr":
+                        vi = S.variant_index(strip(e2[1]))
+                        if vi is not None:
+                            e2 = ("const", vi)      # the discriminant of a value built on this very path
                     if isinstance(e2, tuple) and e2 and e2[0] == "const" and isinstance(e2[1], int):
                         vals = [v for v, _ in n.term["targets"]]
                         taken = lab[1]
